@@ -35,7 +35,7 @@ Alphabet ==
                     <<"m", Ids(<<"a", "b", "a">>)>> } }
   \cup { Op("Set", h, "", f, NilV, "", NoDef, TRUE) : h \in H, f \in {"n", "q"} }   \* untyped nil
   \cup { Op("Set", h, "", "b", V(0), "", NoDef, TRUE) : h \in H }                  \* empty bytes given as a nil slice
-  \cup { Op("SetID", h, "", "", V(0), id, NoDef, FALSE) : h \in H, id \in {"i1", "i2"} }
+  \cup { Op("SetID", h, "", "", V(0), id, NoDef, FALSE) : h \in H, id \in {"i1", "i2", ""} }
   \cup { Op(o, h, "", "", V(0), "", NoDef, FALSE) : o \in {"Copy", "NewLike", "TypeCopy", "Marshal", "TypeEdit"}, h \in H }
   \cup { Op("MutSlice", h, "", f, V(3), "", NoDef, FALSE) : h \in H, f \in {"b", "q", "m"} }
   \cup { Op("Filter", h, "", "m", V(0), "", NoDef, FALSE) : h \in H }
@@ -88,6 +88,7 @@ E1 == [impl |-> "soft", tname |-> "rt", fields |-> TFields, id |-> "i1",
 E0 == [impl |-> "soft", tname |-> "rt", fields |-> TFields, id |-> "i1", vals |-> ZeroVals(TFields)]
 Rename(e, f, g) == [e EXCEPT !.fields = [x \in (DOMAIN e.fields \ {f}) \cup {g} |-> IF x = g THEN e.fields[f] ELSE e.fields[x]],
                              !.vals   = [x \in (DOMAIN e.vals \ {f}) \cup {g} |-> IF x = g THEN e.vals[f] ELSE e.vals[x]]]
+Rekind(e, f, k, nl) == [e EXCEPT !.fields[f].k = k, !.fields[f].null = nl]
 AltVal(e, f) == LET d == e.fields[f] v == e.vals[f] IN
     IF d.kind = "attr" THEN (IF v.nil \/ v.r # 2 THEN V(2) ELSE V(1))
     ELSE IF d.to1 THEN (IF v.ids = <<"b">> THEN Ids(<<"a">>) ELSE Ids(<<"b">>))
@@ -98,6 +99,9 @@ Variants(e) ==
   \cup { [e EXCEPT !.vals[f] = AltVal(e, f)] : f \in DOMAIN e.fields }
   \cup { [e EXCEPT !.vals[f] = NilV] : f \in {"n", "q"} }
   \cup { [e EXCEPT !.vals["m"] = Ids(<<"a", "c", "b">>)] }
+  \* the same attribute name with another kind: a zero of another width prints the same
+  \cup { Rekind([e EXCEPT !.vals["n"] = V(0)], "n", k, nl) : k \in {"int", "int64", "uint8"}, nl \in BOOLEAN }
+  \cup { Rekind(e, "s", "int", FALSE) }
 EqPairs == { <<a, b>> \in (Variants(E1) \cup Variants(E0)) \X (Variants(E1) \cup Variants(E0)) : TRUE }
 EmitEq == PrintT(<<"EQ", ToJson(SetToSeq(EqPairs))>>)
 
